@@ -242,7 +242,8 @@ let () =
         check id "DecryptFragment"
           (res_string (fun g -> Printf.sprintf "%s|%d|%d" (string_of_mchildren g.f_children)
                           (int_of_n g.f_data_offset) (int_of_n g.f_mdat_start)) r) obs
-      | ["E"; id; sch; iv; samples; before; trafc; moofstart; tenciv; obs] ->
+      | "E" :: id :: sch :: iv :: samples :: before :: trafc :: moofstart :: tenciv :: seig :: [obs] ->
+        let seig = if seig = "-" then None else Some (n_of_int (int_of_string seig)) in
         let iv0 = pad_iv (bytes_of_hex iv) in
         let descs = L.map (fun d -> match split_on ':' d with
             | [l; rs] -> (n_of_int (int_of_string l), ranges_of_string rs)
@@ -272,7 +273,7 @@ let () =
                let rec upto acc = function [] -> acc | (true, _) :: _ -> acc | (false, z) :: t -> upto (acc + z) t in
                let senc_start = ms + 8 + L.fold_left (fun a b -> a + int_of_n b) 0 before + 8 + upto 0 tc in
                let st p =
-                 res_string senc_state (traf_senc (n_of_int p) (n_of_int ms) (n_of_int senc_start) (Some off) sb) in
+                 res_string senc_state (traf_senc_seig (n_of_int p) seig (n_of_int ms) (n_of_int senc_start) (Some off) sb) in
                S.concat "|" (["ok"; hex_of_bytes sb; hex_of_bytes zb; hex_of_bytes (saio_encode off); string_of_int senc_start]
                              @ L.map st [int_of_string tenciv; int_of_string tenciv; 0; 8; 16])
              | a, b -> "encode-" ^ (if res_name a <> "ok" then res_name a else res_name b))
